@@ -231,6 +231,10 @@ class Executor(object):
     def field_arr(self, st, cls, field):
         home = self.reg.field_home(cls, field)
         if home is None:
+            down = self.reg.field_home_down(cls, field)
+            if down is not None:
+                home = (down[1], down[2], down[3])
+        if home is None:
             raise OutOfSubset('unknown field %s.%s (declare it with classdef)' % (cls, field))
         root, pt, ghost = home
         name = 'F:%s.%s' % (root, field)
@@ -329,10 +333,10 @@ class Executor(object):
             raise OutOfSubset('cannot coerce: %s' % e)
 
     # ------------------------------------------------------------ obligations
-    def oblige(self, st, label, goal, node=None, kind='assert', note=''):
+    def oblige(self, st, label, goal, node=None, kind='assert', note='', nosplit=False):
         if goal.op == 'const' and goal.val:
             return
-        if goal.op == 'and' and len(goal.args) > 1:
+        if goal.op == 'and' and len(goal.args) > 1 and not nosplit:
             # one query per conjunct (same clause name): smaller queries, better diagnostics
             for g in goal.args:
                 self.oblige(st, label, g, node, kind, note)
@@ -589,7 +593,7 @@ class Executor(object):
                     return TRUE
                 continue
             if kind == 'family':
-                if self._family_array(name, v):
+                if self._family_array(name, v) and name.split('.')[-1] not in ('hist', 'finalv'):
                     return TRUE
                 continue
             if kind == 'field':
@@ -629,6 +633,8 @@ class Executor(object):
             return self._family(cls) == fam
         if fam == 'joiner':
             return 'JKey' in name or name == 'L:Tup_Int_Int_Int'
+        if fam == 'aggregator':
+            return name.startswith('D:Key:') or name.startswith('DK:Key:')
         return False
 
     def _family(self, cls):
@@ -668,6 +674,8 @@ class Executor(object):
             return
         items = self._modset(contract, st, entry, result)
         alloc0 = entry.heap['$alloc']
+        frame_goals = []
+        frame_names = []
         for name in sorted(st.heap):
             if name in ('$alloc',):
                 continue
@@ -684,7 +692,11 @@ class Executor(object):
             if inm.op == 'const' and inm.val:
                 continue
             goal = Implies(And(Gt(r, IntC(0)), Lt(r, alloc0), Not(inm)), Eq(Select(cur, r), Select(init, r)))
-            self.oblige(st, 'frame.%s' % name, goal, self.func.node, kind='frame', note='only the modifies set may change')
+            frame_goals.append(goal)
+            frame_names.append(name)
+        if frame_goals:
+            self.oblige(st, 'frame', And(*frame_goals), self.func.node, kind='frame', nosplit=True,
+                        note='only the modifies set may change (heap arrays: %s)' % ', '.join(frame_names))
 
     # ------------------------------------------------------------ statements
     def exec_block(self, stmts, st):
@@ -976,11 +988,14 @@ class Executor(object):
         def check_frame_inv(state, tag):
             if not auto_frame:
                 return
+            gs = []
             for name in may_mod:
                 r = fresh('fr', INT)
                 g = frame_goal(state, name, r)
                 if g is not None:
-                    self.oblige(state, 'loop%d.frame.%s.%s' % (ordn, name, tag), g, s, kind='frame', note='loop frame invariant')
+                    gs.append(g)
+            if gs:
+                self.oblige(state, 'loop%d.frame.%s' % (ordn, tag), And(*gs), s, kind='frame', note='loop frame invariant', nosplit=True)
 
         check_inv(st, 'init')
         check_frame_inv(st, 'init')
@@ -1175,7 +1190,7 @@ class Executor(object):
             if p == '*':
                 return set(n for n in names if n != '$srcs' and not n.endswith('.level') and not n.endswith('.sorted_iface'))
             if isinstance(p, tuple) and p[0] == 'family':
-                out |= set(n for n in names if self._family_array(n, p[1]) and n.split('.')[-1] not in ('kind', 'jmv', 'nullw', 'kidx'))
+                out |= set(n for n in names if self._family_array(n, p[1]) and n.split('.')[-1] not in ('kind', 'jmv', 'nullw', 'kidx', 'hist', 'finalv'))
             elif isinstance(p, tuple) and p[0] == 'arr':
                 out.add(p[1])
             elif p == 'held':
@@ -1824,10 +1839,25 @@ class Executor(object):
         if k == 'opt' and base.pt.args[0].kind == 'obj':
             base = self.unwrap_opt(st, base, n)
             k = 'obj'
+        if k == 'cell':
+            owners = [c for c, ci in self.reg.classes.items() if n.attr in ci.fields]
+            if len(owners) == 1:
+                c = base.t
+                ok = And(ptypes.dt_test('CObj', c), Eq(Select(self.cls_arr(), ptypes.dt_sel('oid', c, INT, 'CObj')), IntC(self.program.class_id(owners[0]))))
+                if not self.branch(st, ok, raising='AttributeError', node=n):
+                    raise PyExc(ExcV('AttributeError'))
+                return self.get_field(st, SV(TObj(owners[0]), ptypes.dt_sel('oid', c, INT, 'CObj')), n.attr)
+            raise OutOfSubset('attribute %s of a cell at line %d' % (n.attr, n.lineno))
         if k == 'obj':
             home = self.reg.field_home(base.pt.args[0], n.attr)
             if home is not None:
                 return self.get_field(st, base, n.attr)
+            down = self.reg.field_home_down(base.pt.args[0], n.attr)
+            if down is not None:
+                ok = Eq(Select(self.cls_arr(), base.t), IntC(self.program.class_id(down[0])))
+                if not self.branch(st, ok, raising='AttributeError', node=n):
+                    raise PyExc(ExcV('AttributeError'))
+                return self.get_field(st, SV(TObj(down[0]), base.t), n.attr)
             return SV(PT('method'), py=(base, n.attr))
         if k == 'excv':
             exc = base.py
@@ -2061,16 +2091,18 @@ class Executor(object):
         raise OutOfSubset('starred expression')
 
     # ------------------------------------------------------------ contract expressions
-    def ceval(self, expr, st, entry, result, loop_entry=None):
+    def ceval(self, expr, st, entry, result, loop_entry=None, owner=None):
         """evaluate a contract clause to a Bool term (pure: no forks, no obligations)"""
-        v = self.cvalue(expr, st, entry, result, loop_entry)
+        v = self.cvalue(expr, st, entry, result, loop_entry, owner)
         if v.pt.kind != 'bool':
             return self.truth(st, v)
         return v.t
 
-    def cvalue(self, expr, st, entry, result, loop_entry=None):
+    def cvalue(self, expr, st, entry, result, loop_entry=None, owner=None):
         from . import cexpr
-        return cexpr.CEval(self, st, entry, result, loop_entry).ev(expr)
+        ce = cexpr.CEval(self, st, entry, result, loop_entry, None, st.pc)
+        ce.owner = owner if owner is not None else self.contract
+        return ce.ev(expr)
 
 
 def slice_term(ex, seq, lo_t, hi_t):
